@@ -339,8 +339,31 @@ pub fn dec_plan(prop: &str, tier: Tier) -> Vec<DecPlanItem> {
         }
     }
     let _ = single_byte_reps();
+    // after a crash of the harness process (a subject that corrupts the heap through a String /
+    // Vec receiver): slice sinks only, where guard bands catch and attribute the stray write
+    if slice_sinks_only() {
+        v.retain(|it| matches!(it.sink, Sink::Utf8 | Sink::Utf16) && it.methods.is_empty());
+    }
+    // quick tier in the simd-accel build: the decoders with SIMD-specific code, longer runs
+    if simd_subset() {
+        v.retain(|it| SIMD_SUBSET_DECODERS.contains(&it.enc));
+        for it in v.iter_mut() {
+            if !it.runs.is_empty() {
+                it.runs = vec![16, 17, 33, 48];
+            }
+        }
+    }
     v
 }
+
+pub fn slice_sinks_only() -> bool {
+    std::env::var("VERIF_SLICE_SINKS_ONLY").map(|v| v == "1").unwrap_or(false)
+}
+pub fn simd_subset() -> bool {
+    std::env::var("VERIF_SIMD_SUBSET").map(|v| v == "1").unwrap_or(false)
+}
+const SIMD_SUBSET_DECODERS: [&str; 6] = ["UTF-16LE", "UTF-16BE", "x-user-defined", "windows-1252", "UTF-8", "Shift_JIS"];
+const SIMD_SUBSET_ENCODERS: [&str; 4] = ["windows-1252", "UTF-8", "x-user-defined", "Shift_JIS"];
 
 pub fn dec_oracles(prop: &str, tier: Tier) -> Oracles {
     let mut or = Oracles::default();
@@ -465,6 +488,17 @@ pub fn enc_plan(prop: &str, tier: Tier) -> Vec<EncPlanItem> {
                 }
             }
             _ => panic!("no encoder plan for {}", prop),
+        }
+    }
+    if slice_sinks_only() {
+        v.retain(|it| it.sink == ESink::Slice);
+    }
+    if simd_subset() {
+        v.retain(|it| SIMD_SUBSET_ENCODERS.contains(&it.enc));
+        for it in v.iter_mut() {
+            if !it.runs.is_empty() {
+                it.runs = vec![16, 17, 33, 48];
+            }
         }
     }
     v
